@@ -13,7 +13,7 @@ From Utp Require Import Conn.C10_Pred Conn.C02_Pred.
 From Utp Require Import Conn.C17_Pred Conn.C03_Pred.
 From Utp Require Import Conn.C05_Pred Conn.C06_Pred.
 From Utp Require Import Conn.C07_Pred Conn.C07_Pred2 Conn.C18_Pred Conn.C09_Pred Conn.C09_Shift.
-From Utp Require Import Pair.Pair.
+From Utp Require Import Pair.Pair Pair.C01_Pred2.
 From Utp Require Import Conn.C04_Pred Conn.C0506_Pred2 Conn.C14C08_Pred Conn.C14_Pred2 Conn.C08_Pred2.
 From Utp Require Import Conn.C04_Pred Conn.C0506_Pred2 Conn.C14C08_Pred.
 From Utp Require Import Conn.C11_Pred Sock.DispC11_Pred Conn.C04_Pred2 Conn.C05_Pred3 Cubic.C15_Pred2 Conn.C18_Pred2 Conn.C06_Pred2 Pair.C02_PairPred.
@@ -47,6 +47,7 @@ Extraction "model"
   c18_nagle_ok c18_pre_monitor
   pair_new_cubic ptrace_cubic c01_dir_bad c01_dir_ok c01_pair_ok c01_pair_guarded c01_kf1_class c01_kf1_class_dir
   c01_d17_class c01_d17_class_dir dchk0 pkt_size hacc_add hacc0
+  c01_kf1_class2 c01_kf1_class2_dir c01_kf1_popped_dir c01_pair_guarded2 pops_of popped_between
   c04_vsock_ack_ok c04_d19_class c06_no_resend_acked c05_rto_exit_ok c05_slow_start_ok
   c14_datagram_ok c14_segments_ok c08_deadline_ok c14_wire_ok c08_fires_ok
   c09_shift_ok c09_first_bad c09_within_tol c09_guard_trace_cubic c09_guard_first_bad_cubic drop_vsock poll_finished c03_post_drop_ok c03_drop_wakes_ok
